@@ -60,13 +60,17 @@ class SymRng:
             items = list(a)
         n = len(items)
         site = _site()
+        pv = None
+        if p is not None:
+            pv = list(p.v) if isinstance(p, Arr) else list(p)
+        rec = ChoiceRecord(site, n, pv, None, items)
+        if self.on_choice is not None:
+            self.on_choice(rec, c)  # the oracle sees the call before numpy's own validation
         if n == 0:
             raise ValueError("a cannot be empty unless no samples are taken")
         if p is None:
             conds = [True] * n
-            pv = None
         else:
-            pv = list(p.v) if isinstance(p, Arr) else list(p)
             if len(pv) != n:
                 raise ValueError("a and p must have same size")
             if any(x is NAN for x in pv):
@@ -82,9 +86,6 @@ class SymRng:
                     raise ValueError("probabilities do not sum to 1")
             thr = self.zero_threshold
             conds = [x > thr for x in pv]
-        rec = ChoiceRecord(site, n, pv, None, items)
-        if self.on_choice is not None:
-            self.on_choice(rec, c)
         i = c.choose(conds, label="rng.choice")
         rec.index = i
         self.calls.append(rec)
